@@ -249,12 +249,87 @@ def rule_e(R, ctx, rid="C16.e"):
              "garbage-collected ranges are deleted content too" % (whole, narrowed[:2], from_block), cs.loc())
 
 
+# appended elements that are not built on the spot: function -> reason the piece is non-empty
+MOVED_PIECES = {
+    "yrs::id_map::IdMap::filter": "clone of an entry of the (canonical) source map",
+    "yrs::ids::IdRanges::insert_with": "entries of the local `replacement` list, which is filled through push_coalesced only",
+}
+
+
+def rule_f(R, ctx, rid="C16.f"):
+    Y = ctx.yrs
+    R.rule(rid, "R-GUARD no empty range is ever stored (canonical form; `contains`, equality and the encoders all assume it): in "
+                "yrs::ids / yrs::id_set / yrs::id_map every `(start..end, value)` appended to a range list (SmallVec/Vec push or "
+                "insert) is decided by a strict comparison of that very start and end — `start < end` holds on every path to the "
+                "append (Lt/Gt taken or Ge/Le refused, operands matched by value numbering), for a whole `range` parameter the "
+                "entry test `range.start >= range.end -> return`; elements moved from elsewhere are a frozen table")
+    n = 0
+    for p, fn in sorted(Y.fns.items()):
+        if not (p.startswith("yrs::ids::") or p.startswith("yrs::id_set::") or p.startswith("yrs::id_map::")) or not fn.mir:
+            continue
+        sites = [c for c in fn.calls() if re.search(r"(Vec|SmallVec)(<.*>)?::(push|insert)$", c.name) and len(c.args) >= 2]
+        if not sites:
+            continue
+        v = FnView(fn)
+        for cs, site in ordinal_sites(sites):
+            el = mir_def(fn, cs.args[-1])
+            if not (el and el[0] == "stmt" and isinstance(el[1].get("agg"), dict) and el[1]["agg"].get("kind") == "tuple" and len(el[1].get("ops", [])) == 2):
+                # not a (range, value) tuple built here
+                a = cs.args[-1]
+                al = a.get("m", a.get("c")) if isinstance(a, dict) else None
+                ety = str(fn.local_ty(al)) if isinstance(al, int) else ""
+                if not ety.startswith("(std::ops::Range<u32>"):
+                    continue
+                why = MOVED_PIECES.get(Y.root_of(fn).path)
+                if why and "push_coalesced only" in why:
+                    # machine-checked part of the reason: every raw append in this function goes to self's list, every other
+                    # list (the local replacement) is filled through push_coalesced
+                    raw_other = [c for c in sites if mir_vkey(fn, c.args[0]) != ("proj", ("local", 1), ("yrs::ids::IdRanges.0",))]
+                    pcs = fn.calls_to("yrs::ids::push_coalesced")
+                    R.ob(rid, fn, site + ":source", not raw_other and len(pcs) >= 1,
+                         "moved element: every raw append of this function targets self.0 and the local list is filled by %d "
+                         "push_coalesced call(s)" % len(pcs) if not raw_other and pcs else
+                         "a list other than self.0 is filled by a raw push in this function, so the elements moved from it are not "
+                         "known to be non-empty", cs.loc())
+                elif why:
+                    R.inventory(rid, fn, site, "moved element: " + why, cs.loc())
+                else:
+                    R.ob(rid, fn, site, False, "an element that was not built here is appended to a range list and the function is "
+                         "not in the table of known sources", cs.loc())
+                continue
+            rng = el[1]["ops"][0]
+            rd = mir_def(fn, rng)
+            if rd and rd[0] == "stmt" and isinstance(rd[1].get("agg"), dict) and str(rd[1]["agg"].get("adt", "")).endswith("ops::Range"):
+                ks, ke = mir_vkey(fn, rd[1]["ops"][0]), mir_vkey(fn, rd[1]["ops"][1])
+                what = "built here"
+            else:
+                r = mir_root(fn, rng)
+                if rd and rd[0] == "call" and rd[1].name.endswith("::clone") and Y.root_of(fn).path in MOVED_PIECES:
+                    R.inventory(rid, fn, site, "moved element: " + MOVED_PIECES[Y.root_of(fn).path], cs.loc())
+                    continue
+                if r[0] != "local":
+                    R.ob(rid, fn, site, False, "the appended range is neither built here nor a local: %r" % (r,), cs.loc())
+                    continue
+                ks = ("proj", ("local", r[1]), ("std::ops::Range.start",))
+                ke = ("proj", ("local", r[1]), ("std::ops::Range.end",))
+                what = "the range local _%d" % r[1]
+            n += 1
+            strict = mir_strict_order_guards(fn, v, cs.bb)
+            ok = (ks, ke) in strict
+            R.ob(rid, fn, site, ok,
+                 "%s: start < end holds on every path to the append" % what if ok else
+                 "%s is appended without a strict comparison of its own start and end on every path (%d other strict orderings "
+                 "known here): an empty range can be stored" % (what, len(strict)), cs.loc())
+    R.floor(rid, "range pieces appended to range lists", n, 9)
+
+
 def check(ctx, R):
     R.run("C16.a", rule_a, ctx)
     R.run("C16.b", rule_b, ctx)
     R.run("C16.c", rule_c, ctx)
     R.run("C16.d", rule_d, ctx)
     R.run("C16.e", rule_e, ctx)
+    R.run("C16.f", rule_f, ctx)
     from . import preds
     R.run("C16.p", lambda R, c: preds.rule(R, c, "C16.p", ["idmap_contains", "blockrange_contains"]), ctx)
     return {}
